@@ -402,6 +402,23 @@ theorem iterator_next_is_get_at_cursor (l c : Nat) (r : ListConc.Res) :
   | opt o => cases o <;> rfl
   | _ => rfl
 
+/-- **Later operations do not change the run so far** (any facts, any number
+    of threads): appending operations to the threads' programs leaves every
+    schedule of the shorter programs a schedule, with the same cells, the same
+    log, events and spans, and the same results — only the programs still to
+    run are longer. This is why a thread that *decides* its next operation when
+    the previous one returned (an iterator: `Follows`) runs exactly like the
+    static program that has all of them from the start. -/
+theorem later_operations_do_not_change_the_run_so_far (F : Facts) (lists : List (List Nat))
+    (progs : List (List Op)) (more : Nat → List Op) (sched : List Nat) (s' : State)
+    (hrun : run F (init lists progs) sched = some s') :
+    ∃ s2, run F (init lists (extendProgs progs more)) sched = some s2 ∧
+      s2.cells = s'.cells ∧ s2.hist = s'.hist ∧ s2.trace = s'.trace ∧ s2.spans = s'.spans ∧
+      ∀ t, (s2.threads t).results = (s'.threads t).results ∧
+        (s2.threads t).prog = (s'.threads t).prog ++ (if t < progs.length then more t else []) := by
+  obtain ⟨s2, h2, hc, hh, ht, hs, hth⟩ := run_ext sched (init_ext lists progs more) hrun
+  exact ⟨s2, h2, hc, hh, ht, hs, fun t => by rw [hth t]; exact ⟨rfl, rfl⟩⟩
+
 /-- **An iterator under concurrent pushes yields a prefix of the list.** For
     every number of threads, all programs and every schedule: if thread `t`
     made an iterator over list `l` and called `next` up to `n` times (its
@@ -518,5 +535,11 @@ example : idrive RotoV.Gen.C16.facts [[1, 2, 3, 4]] [[.iterNew 0, .iterNext, .it
 /-- an iterator that reached the end asks the same index again: it resumes after a push -/
 example : idrive RotoV.Gen.C16.facts [[1]] [[.iterNew 0, .iterNext, .iterNext, .iterNext], [.base (.push 0 9)]]
       [0, 0, 0, 0, 1, 0, 0] = some [[.clone 0, .get 0 0, .get 0 1, .get 0 1], [.push 0 9]] := by decide
+
+/-- `later_operations_do_not_change_the_run_so_far` on a concrete run: the iterator's
+    second `next` appended after its first has returned -/
+example : (run RotoV.Gen.C16.facts (init [[1, 2]] (extendProgs [[.clone 0, .get 0 0], [.push 0 9]]
+      (fun t => if t = 0 then [.get 0 1] else []))) [0, 0, 0, 1]).map (fun s => (s.threads 0).prog)
+    = some [.get 0 1] := by decide
 
 end RotoV.C16
